@@ -103,6 +103,14 @@ def gen(rng, tier):
             add("drv::g_members_map<%s, %s, %s>(caseno)" % (m.cpp(), m.e.cpp(), m.lcpp()), "member types of %s" % m.desc(), [None, 3] + m.toks(), {"q": "member types: mapping", "rank": len(m.e.pat)})
         elif k == "mmds":
             d = rand_mds(rng)
+            if d.a.k == 0 and rng.random() < 0.3:
+                # volatile-qualified element types (value_type is remove_cv_t, not remove_const_t); the model's answer does not depend on the qualifier
+                el = ("const " if d.a.const else "") + "volatile " + BASES[d.a.base]
+                acc = "Kokkos::default_accessor<%s>" % el
+                mdt = "Kokkos::mdspan<%s, %s, %s, %s>" % (el, d.m.e.cpp(), d.m.lcpp(), acc)
+                add("drv::g_members_mds<%s, %s, %s, %s, %s>(caseno)" % (mdt, el, d.m.e.cpp(), d.m.lcpp(), acc), "member types of mdspan<%s, %s>" % (el, d.m.desc()),
+                    [None, 4] + d.toks() + [1], {"q": "member types: mdspan over a volatile element type", "rank": len(d.m.e.pat)})
+                continue
             add("drv::g_members_mds<%s, %s, %s, %s, %s>(caseno)" % (d.cpp(), d.a.el(), d.m.e.cpp(), d.m.lcpp(), d.a.cpp()), "member types of %s" % d.desc(), [None, 4] + d.toks(), {"q": "member types: mdspan", "rank": len(d.m.e.pat)})
         elif k == "marr":
             m = rand_map(rng); base = BASES[rng.randrange(2)]
